@@ -8,6 +8,9 @@ import time
 
 from common import Verdict, tier as get_tier, seed as get_seed, RUN
 
+import model
+import replay as rp
+from concurrent.futures import ThreadPoolExecutor
 from vsim import tlc, scenarios as S
 from vsim.explore import explore_dfs, explore_random, run_once
 from vsim.tracefile import BatchWriter
@@ -100,6 +103,83 @@ def scenario_set(prop, thorough):
     return scns, fam
 
 
+MODEL_QUICK = {"task-chain", "par-task-end", "map-task-mc1", "nested", "par-fail-unhandled", "par-fail-catch", "par-fail-retry", "par-inner-catch",
+               "par-tt", "map-3-mc2", "nest-par-map", "express-par", "two-execs"}
+
+
+def model_stage(scns, thorough, on_run, work):
+    """Engine.tla on every scenario the model supports: (1) TLC checks the invariants on ALL schedules
+    (as this code: Dev = {F18, F19}; and as the design: Dev = {}); a counterexample is replayed on the
+    real engine; (2) the crash-free state graph is dumped, covered by paths, and every path is driven
+    through the real engine; the recorded runs join the batch validated against Trace.tla."""
+    wd = os.path.join(work, "model")
+    os.makedirs(wd, exist_ok=True)
+    sel = [s for s in scns if thorough or s["id"] in MODEL_QUICK]
+
+    def one(s):
+        try:
+            code = model.check(s, wd, name=s["id"] + "_code")
+        except model.Unsupported as ex:
+            return s, None, str(ex)
+        design = model.check(s, wd, dev=(), name=s["id"] + "_design") if thorough else None
+        dot = os.path.join(wd, "g_" + "".join(c if c.isalnum() else "_" for c in s["id"]))
+        graph = model.check(s, wd, dump=dot, name=s["id"] + "_code")
+        return s, (code, design, graph, dot + ".dot"), None
+    out = {"scenarios": {}, "states": 0, "transitions": 0, "paths": 0, "drift": 0, "unsupported": {}, "leads": []}
+    with ThreadPoolExecutor(max_workers=8) as ex:
+        results = list(ex.map(one, sel))
+    for s, r, why in results:
+        if r is None:
+            out["unsupported"][s["id"]] = why
+            continue
+        code, design, graph, dot = r
+        for x in (code, design, graph):
+            if x is not None and not x["ok"] and not x["violated"] and "Error" in x["out"]:
+                raise tlc.TLCError("Engine.tla failed on %s:\n%s" % (s["id"], x["out"][-2500:]))
+        out["states"] += code["states"] + (design["states"] if design else 0)
+        out["transitions"] += code["generated"] + (design["generated"] if design else 0)
+        info = {"states": graph["states"], "code": "holds" if code["ok"] else code["violated"],
+                "design": "not run at quick" if design is None else ("holds" if design["ok"] else design["violated"])}
+        if not code["ok"] and code["violated"]:
+            try:
+                cx = rp.replay_counterexample(s, code["out"])
+                info["counterexample_followed_by_real_engine"] = cx["followed"]
+                on_run_model(on_run, s, cx, "counterexample of " + code["violated"])
+                out["leads"].append({"scenario": s["id"], "invariant": code["violated"], "followed": cx["followed"]})
+            except Exception as ex:      # a lead that cannot be replayed is only a lead
+                info["counterexample_replay_error"] = str(ex)[:200]
+        try:
+            paths, st = rp.replay_paths(s, dot, max_paths=None if thorough else 12)
+            info.update(edges=st["edges"], paths=st["paths"])
+            for pth in paths:
+                on_run_model(on_run, s, pth, "model path")
+                if pth["drift"]:
+                    out["drift"] += 1
+                    info.setdefault("drift_example", str(pth["drift"][0])[:300])
+            out["paths"] += len(paths)
+        finally:
+            try:
+                os.remove(dot)
+            except OSError:
+                pass
+        out["scenarios"][s["id"]] = info
+    return out
+
+
+class _R:
+    pass
+
+
+def on_run_model(on_run, s, pth, what):
+    r = _R()
+    r.events = pth["events"]
+    r.schedule = ["<%s>" % what] + pth.get("labels", [])[:0]
+    r.crash = None
+    r.notes = pth["notes"]
+    r.error = None
+    on_run(r, s)
+
+
 def run(prop, tier_name=None, replay=None):
     t = get_tier(tier_name)
     thorough = t == "thorough"
@@ -160,6 +240,13 @@ def run(prop, tier_name=None, replay=None):
             on_run(run_once(s), s)
             if thorough:
                 explore_random(s, 4, sd + 17, on_run=lambda r, s=s: on_run(r, s))
+    t_explore = time.time() - v.t0
+    try:
+        mstats = model_stage(scns, thorough, on_run, work)
+        t_model = time.time() - v.t0 - t_explore
+    except tlc.TLCError as ex:
+        v.machinery_failure(str(ex)[:1500])
+        return v.finish()
     for b in bws:
         b.close()
     batches = [b.path for b in bws if b.lines]
@@ -189,7 +276,10 @@ def run(prop, tier_name=None, replay=None):
                          "clause": f["clause"], "line": f["n"], "witness": f["w"]},
                         "%s in scenario %s schedule=%s line=%s %s" % (f["clause"], sid, sched, f["n"], f["w"][:160]))
     v.coverage = {
-        "states": stats["states"], "transitions": stats["transitions"],
+        "states": stats["states"] + mstats["states"], "transitions": stats["transitions"] + mstats["transitions"],
+        "model": {"engine_states_all_schedules": mstats["states"], "paths_replayed_into_real_engine": mstats["paths"],
+                  "paths_with_drift": mstats["drift"], "counterexamples_replayed": mstats["leads"],
+                  "per_scenario": mstats["scenarios"], "unsupported_by_model": mstats["unsupported"]},
         "traces_validated_against_impl": counters["runs"],
         "evaluations": counters["runs"], "distinct_nontrivial": len(relevant),
         "rule": "one evaluation = one run of the real engine (scenario x schedule) recorded and validated line by line by TLC "
@@ -204,6 +294,7 @@ def run(prop, tier_name=None, replay=None):
         "failed_clauses": {"%s|%s" % kk: n for kk, n in nfail.items()},
         "escaped_exceptions": counters["escaped"],
         "tlc_cpu_s": stats["tlc_cpu_s"],
+        "stage_wall_s": {"explore_real_engine": round(t_explore, 1), "model_check_and_replay": round(t_model, 1)},
     }
     v.assumptions = ["the simulated broker implements spec/Broker.tla (checked on every trace: ENV clauses)",
                      "frames are sequentialised: one handler at a time per world",
